@@ -79,3 +79,26 @@ Example crash_premises_satisfiable :
   /\ List.length (crash_states loc dh (y_h (yrun loc dh sys_init es1)) (OClose 6%Z)) = 9
   /\ List.length (crash_states loc dh (y_h (yrun loc dh sys_init es0)) (OUpdate a "req-aaaa-1" 5 11 9%Z)) = 6.
 Proof. repeat split; vm_compute; reflexivity. Qed.
+
+(* ---- retention and rename are NOT atomic under a kill (one unlink / rename per history file): the intermediate states are visible.
+   The theorems ProofsC07.crash_removeold_full0 / crash_rename_full0 say exactly what they answer. ------------------------------------ *)
+Definition es2 : list ev := es1 ++ [xClose 6].
+Definition rmStates := crash_states loc dh (y_h (yrun loc dh sys_init es2)) (ORemoveOld a 100%Z).
+Lemma retention_not_atomic :
+  exists fs', In fs' rmStates
+    /\ sp_recent (sp_state es2) a 5 = [q2; q1] /\ sp_recent (sp_state (es2 ++ [EOp (ORemoveOld a 100%Z)])) a 5 = []
+    /\ snd (q_recent loc dh [] fs' a 5) = [q2].
+Proof. exists (nth 1 rmStates fs_empty). split; [vm_compute; auto|]. vm_compute. auto. Qed.
+Definition mvStates := crash_states loc dh (y_h (yrun loc dh sys_init es2)) (ORename a ab).
+Lemma rename_not_atomic :
+  exists fs', In fs' mvStates
+    /\ sp_recent (sp_state es2) a 5 = [q2; q1] /\ sp_recent (sp_state es2) ab 5 = []
+    /\ sp_recent (sp_state (es2 ++ [EOp (ORename a ab)])) a 5 = [] /\ sp_recent (sp_state (es2 ++ [EOp (ORename a ab)])) ab 5 = [q2; q1]
+    /\ snd (q_recent loc dh [] fs' a 5) = [q2] /\ snd (q_recent loc dh [] fs' ab 5) = [q1]
+    /\ fpayload (q_find loc dh fs' a "req-aaaa-1") = None /\ fpayload (q_find loc dh fs' ab "req-aaaa-1") = Some q1.
+Proof. exists (nth 2 mvStates fs_empty). split; [vm_compute; auto 10|]. vm_compute. auto 10. Qed.
+Example partial_ops_premises :
+  premisesb loc dh DE7 [] KE7 (es2 ++ [EOp (ORemoveOld a 100%Z)]) = true /\ premisesb loc dh DE7 [] KE7 (es2 ++ [EOp (ORename a ab)]) = true
+  /\ List.length rmStates = 3 /\ List.length mvStates = 5.
+Proof. repeat split; vm_compute; reflexivity. Qed.
+
